@@ -139,8 +139,8 @@ class C06(props.BaseProp):
 
 P = props.register(C06())
 P.manifest = {
-    "text": "TO BE FILLED",
-    "note": "TO BE FILLED",
+    "text": 'VERIFIED CHECKER, unbounded soundness theorems (axiom-free): check_dist a s d = true => d holds the true shortest distance from s for every node (None = unreachable), for any adjacency with integer costs; check_transpose sound; searching the transposed adjacency yields incoming distances; the formula stage of get_node_centrality is proved exactly ((r-1)/tot, x (r-1)/(n-1) with wf_improved, 0 when r<=1 or n<=1, never panics); combined: the value the model reports for a node whose distance list passed the checks IS the closeness (incoming distances) of that node; one entry per node. The Run module evaluates both checkers for every source of every generated graph (observations 62, 63).',
+    "note": "The correctness of the model's own BFS/Dijkstra loops is established per case by the verified checker, not by a loop invariant proof (see Properties/C06.v header). Trusted: Coq kernel + vm_compute; harness/printers/diff; modelled not verified: IEEE rounding, IntSet/IntMap iteration order (only sum and length of the result list are used), BinaryHeap ties (first/last oracle, observation 61), rayon collect. reverse() is the transcription of Model/Derived.v; that its adjacency is the transpose is checked per case (63). Axioms: none.",
     "technique": "Coq proof (formula stage, verified distance checker) + differential correspondence vs vm_compute "
                  "model + independent definitional oracle on the implementation",
 }
